@@ -179,9 +179,9 @@ theorem track_inv {p : Prog} {s s1 : State} {m x : Nat} (h : InvR p s) (t : Trac
   · intro i hki hri hv
     rw [t.kind] at hki; rw [t.running] at hri; rw [t.val] at hv; rw [t.st]
     exact h.valNone i hki hri hv
-  · intro i hki hri hst ρ hρ
-    rw [t.kind] at hki; rw [t.running] at hri; rw [t.st] at hst; rw [t.seen] at hρ; rw [t.val]
-    exact h.replay i hki hri hst ρ hρ
+  · intro i hki hri hst
+    rw [t.kind] at hki; rw [t.running] at hri; rw [t.st] at hst
+    exact (h.replay i hki hri hst).congr (t.seen i) (t.val i)
   · intro i hki hri hst e he
     rw [t.kind] at hki; rw [t.running] at hri; rw [t.st] at hst; rw [t.seen] at he
     rw [t.running, t.val]
@@ -470,11 +470,11 @@ theorem startRun_inv {p : Prog} {s s4 : State} {m : Nat} (h : InvR p s) (t : Sta
       have him : i ≠ m := by intro e; subst e; rw [t.running_m] at hri; cases hri
       rw [t.running i him] at hri; rw [t.val i him] at hv; rw [t.st]
       exact h.valNone i hki hri hv
-    · intro i hki hri hsi ρ hρ
+    · intro i hki hri hsi
       rw [t.kind] at hki
       have him : i ≠ m := by intro e; subst e; rw [t.running_m] at hri; cases hri
-      rw [t.running i him] at hri; rw [t.st] at hsi; rw [t.seen i him] at hρ; rw [t.val i him]
-      exact h.replay i hki hri hsi ρ hρ
+      rw [t.running i him] at hri; rw [t.st] at hsi
+      exact (h.replay i hki hri hsi).congr (t.seen i him) (t.val i him)
     · intro i hki hri hsi e he
       rw [t.kind] at hki
       have him : i ≠ m := by intro e; subst e; rw [t.running_m] at hri; cases hri
